@@ -2,7 +2,8 @@
    Only statements closed by [exact lemma], followed by Print Assumptions. *)
 From Coq Require Import ZArith List Bool.
 From S3db Require Import Base KeyOrder RowMerge.
-From S3db.proofs Require Import Selector RowMergeProofs.
+From S3db Require Import Tree.
+From S3db.proofs Require Import Selector RowMergeProofs TreeProofs MergeAllProofs ConvergenceProofs.
 Import ListNotations.
 Open Scope Z_scope.
 
@@ -52,6 +53,18 @@ Theorem C17_local_update_keeps_winner src (cv ex : cval V) :
   rle (lww_rank (crdt_update src cv (Some ex))) (lww_rank ex).
 Proof. exact (crdt_update_min src cv ex). Qed.
 
+(* whole stores: folding the same SET of versions in any order / with repetitions gives
+   the same value for every key (values pairwise compatible: distinct ranks or identical) *)
+Theorem C17_store_merge_order_irrelevant (veq : cval V -> cval V -> bool) (S : cval V -> Prop) acc gs acc' gs' :
+  (forall a b, veq a b = true -> a = b) ->
+  (forall a b, S a -> S b -> lww_rank a = lww_rank b -> a = b) ->
+  Forall (fun t => wf t /\ vals_in S t) (acc :: gs) ->
+  Forall (fun t => wf t /\ vals_in S t) (acc' :: gs') ->
+  (forall t, In t (acc :: gs) <-> In t (acc' :: gs')) ->
+  exists t1 t2, merge_list lww_f veq acc gs = Some t1 /\ merge_list lww_f veq acc' gs' = Some t2 /\
+                wf t1 /\ wf t2 /\ forall k, D k -> t_get k t1 = t_get k t2.
+Proof. intros Hv Hc. exact (kv_converge veq Hv S Hc acc gs acc' gs'). Qed.
+
 End C17.
 
 Example C17_nonvacuous :
@@ -69,4 +82,5 @@ Print Assumptions C17_merged_value_is_rank_minimum.
 Print Assumptions C17_merge_order_irrelevant.
 Print Assumptions C17_merge_grouping_irrelevant.
 Print Assumptions C17_local_update_keeps_winner.
+Print Assumptions C17_store_merge_order_irrelevant.
 Print Assumptions C17_nonvacuous.
